@@ -333,7 +333,9 @@ def units(tier, seed):
         'names whose labels are not in IDNA normal form (ToUnicode(ToASCII(label)) == label is assumed for the labels of the symbolic objects); DnsNameUncompressed.convert (text with dots -> labels) is not under contract',
         'TXT data longer than 255 octets (the composer emits a single character-string and rejects longer text)',
     ]
-    return out + foundation.units(tier, seed)
+    from checks import tables as _tables
+    _table_units = _tables.units(_tables.DNS)
+    return out + foundation.units(tier, seed) + _table_units
 
 
 FINDING_REPLAYS = {KF_ODD: w_keytag_odd, KF_ED448: w_ed448}
